@@ -1,0 +1,261 @@
+//go:build verif
+
+package tubes
+
+import (
+	"io"
+
+	"github.com/sirupsen/logrus"
+)
+
+// Export shims for the verification harness (build tag `verif`). Nothing here
+// re-implements logic: every function only constructs, steps or reads the
+// package's own unexported types.
+
+func verifLog() *logrus.Entry {
+	l := logrus.New()
+	l.SetOutput(io.Discard)
+	l.SetLevel(logrus.PanicLevel)
+	return logrus.NewEntry(l)
+}
+
+// VerifFrame mirrors the unexported frame type.
+type VerifFrame struct {
+	AckNo      uint32
+	FrameNo    uint32
+	DataLength uint16
+	REQ        bool
+	RESP       bool
+	REL        bool
+	ACK        bool
+	FIN        bool
+	RTR        bool
+	TubeID     byte
+	Data       []byte
+	Queued     bool
+}
+
+func (v VerifFrame) toFrame() *frame {
+	return &frame{
+		ackNo:      v.AckNo,
+		frameNo:    v.FrameNo,
+		dataLength: v.DataLength,
+		flags:      frameFlags{REQ: v.REQ, RESP: v.RESP, REL: v.REL, ACK: v.ACK, FIN: v.FIN, RTR: v.RTR},
+		tubeID:     v.TubeID,
+		data:       v.Data,
+	}
+}
+
+func verifFromFrame(f *frame) VerifFrame {
+	return VerifFrame{
+		AckNo: f.ackNo, FrameNo: f.frameNo, DataLength: f.dataLength,
+		REQ: f.flags.REQ, RESP: f.flags.RESP, REL: f.flags.REL, ACK: f.flags.ACK, FIN: f.flags.FIN, RTR: f.flags.RTR,
+		TubeID: f.tubeID, Data: f.data, Queued: f.queued,
+	}
+}
+
+// VerifTubeFrameBytes is frame.toBytes.
+func VerifTubeFrameBytes(v VerifFrame) []byte { return v.toFrame().toBytes() }
+
+// VerifTubeFrameParse is fromBytes.
+func VerifTubeFrameParse(b []byte) (VerifFrame, error) {
+	f, err := fromBytes(b)
+	if err != nil || f == nil {
+		return VerifFrame{}, err
+	}
+	return verifFromFrame(f), nil
+}
+
+// VerifInitFrameBytes is initiateFrame.toBytes.
+func VerifInitFrameBytes(tubeID byte, tubeType TubeType, frameNo uint32, v VerifFrame) []byte {
+	p := initiateFrame{
+		frameNo: frameNo, tubeID: tubeID, tubeType: tubeType, data: v.Data, dataLength: v.DataLength,
+		flags: frameFlags{REQ: v.REQ, RESP: v.RESP, REL: v.REL, ACK: v.ACK, FIN: v.FIN, RTR: v.RTR},
+	}
+	return p.toBytes()
+}
+
+// ---- bare receiver ----
+
+type VerifReceiver struct{ r *receiver }
+
+func VerifNewReceiver() *VerifReceiver { return &VerifReceiver{r: newReceiver(verifLog())} }
+
+// SetPosition places the receive window (used to start a run near the 32-bit wrap).
+func (v *VerifReceiver) SetPosition(ackNo, windowStart uint64) {
+	v.r.m.Lock()
+	defer v.r.m.Unlock()
+	v.r.ackNo = ackNo
+	v.r.windowStart = windowStart
+}
+
+func (v *VerifReceiver) Receive(f VerifFrame) (bool, error) { return v.r.receive(f.toFrame()) }
+
+// Read is receiver.read; it blocks when nothing is buffered and the receiver is not closed.
+func (v *VerifReceiver) Read(b []byte) (int, error) { return v.r.read(b) }
+
+func (v *VerifReceiver) GetAck() uint32 { return v.r.getAck() }
+
+func (v *VerifReceiver) AckNo() uint64 {
+	v.r.m.Lock()
+	defer v.r.m.Unlock()
+	return v.r.ackNo
+}
+
+func (v *VerifReceiver) WindowStart() uint64 {
+	v.r.m.Lock()
+	defer v.r.m.Unlock()
+	return v.r.windowStart
+}
+
+func (v *VerifReceiver) Fragments() int {
+	v.r.m.Lock()
+	defer v.r.m.Unlock()
+	return v.r.fragments.Len()
+}
+
+func (v *VerifReceiver) Buffered() int {
+	v.r.m.Lock()
+	defer v.r.m.Unlock()
+	return v.r.buffer.Len()
+}
+
+func (v *VerifReceiver) Closed() bool { return v.r.closed.Load() }
+
+// VerifFrameInBounds is frameInBounds.
+func VerifFrameInBounds(wS, wE, f uint64) bool { return frameInBounds(wS, wE, f) }
+
+// VerifUnwrapFrameNo is receiver.unwrapFrameNo for a receiver whose ackNo is ackNo.
+func VerifUnwrapFrameNo(ackNo uint64, frameNo uint32) uint64 {
+	r := newReceiver(verifLog())
+	r.m.Lock()
+	defer r.m.Unlock()
+	r.ackNo = ackNo
+	return r.unwrapFrameNo(frameNo)
+}
+
+// ---- bare sender ----
+
+type VerifSender struct{ s *sender }
+
+func VerifNewSender() *VerifSender { return &VerifSender{s: newSender(verifLog())} }
+
+// SetPosition places the sender's counters (used to start a run near the 32-bit wrap).
+func (v *VerifSender) SetPosition(ackNo uint64, frameNo uint32) {
+	v.s.m.Lock()
+	defer v.s.m.Unlock()
+	v.s.ackNo = ackNo
+	v.s.frameNo = frameNo
+}
+
+// SetWindow sets the congestion window the way recvAck leaves it (cwndSize and windowSize agree).
+func (v *VerifSender) SetWindow(w uint16) {
+	v.s.m.Lock()
+	defer v.s.m.Unlock()
+	v.s.senderWindow.cwndSize = float64(w)
+	v.s.senderWindow.windowSize = w
+}
+
+func (v *VerifSender) Write(b []byte) (int, error)          { return v.s.write(b) }
+func (v *VerifSender) RecvAck(ackNo uint32) (uint32, error) { return v.s.recvAck(ackNo) }
+func (v *VerifSender) SendFin() error                       { return v.s.sendFin() }
+func (v *VerifSender) FramesToSend(rto bool, start int) int { return v.s.framesToSend(rto, start) }
+func (v *VerifSender) Close() error                         { return v.s.Close() }
+
+func (v *VerifSender) AckNo() uint64 {
+	v.s.m.Lock()
+	defer v.s.m.Unlock()
+	return v.s.ackNo
+}
+
+func (v *VerifSender) FrameNo() uint32    { return v.s.frameNo }
+func (v *VerifSender) Unacked() uint16    { return v.s.unacked }
+func (v *VerifSender) FinSent() bool      { return v.s.finSent }
+func (v *VerifSender) FinFrameNo() uint32 { return v.s.finFrameNo }
+func (v *VerifSender) WindowSize() uint16 { return v.s.getWindowSize() }
+func (v *VerifSender) DupAckCounter() int { return v.s.senderWindow.duplicatedAckCounter }
+func (v *VerifSender) UnackedFrames() int { return v.s.unAckedFramesRemaining() }
+
+// Frames returns the retransmission buffer (unacknowledged frames, oldest first).
+func (v *VerifSender) Frames() []VerifFrame {
+	v.s.m.Lock()
+	defer v.s.m.Unlock()
+	res := make([]VerifFrame, len(v.s.frames))
+	for i, f := range v.s.frames {
+		res[i] = verifFromFrame(f.frame)
+	}
+	return res
+}
+
+// DrainSendQueue empties the sender's own queues (nothing reads them on a bare sender).
+func (v *VerifSender) DrainSendQueue() int {
+	n := 0
+	for {
+		select {
+		case _, ok := <-v.s.sendQueue:
+			if !ok {
+				return n
+			}
+			n++
+		case _, ok := <-v.s.prioritySendQueue:
+			if !ok {
+				return n
+			}
+			n++
+		default:
+			return n
+		}
+	}
+}
+
+// ---- muxer and tube state readers ----
+
+// VerifHasTube reports whether the muxer currently has a tube under (reliable, id).
+func (m *Muxer) VerifHasTube(reliable bool, id byte) bool {
+	_, ok := m.getTube(reliable, id)
+	return ok
+}
+
+// VerifNumTubes returns the sizes of the two tube maps.
+func (m *Muxer) VerifNumTubes() (int, int) {
+	m.m.Lock()
+	defer m.m.Unlock()
+	return len(m.reliableTubes), len(m.unreliableTubes)
+}
+
+// VerifQueuedTubes is the number of remotely opened tubes waiting for Accept.
+func (m *Muxer) VerifQueuedTubes() int { return len(m.tubeQueue) }
+
+// VerifTryAccept is Accept without blocking: nil when nothing is queued.
+func (m *Muxer) VerifTryAccept() (Tube, bool) {
+	select {
+	case t, ok := <-m.tubeQueue:
+		if !ok {
+			return nil, false
+		}
+		return t, true
+	default:
+		return nil, false
+	}
+}
+
+// VerifBuffered returns the number of assembled bytes waiting in a reliable tube's receiver and
+// whether that receiver is closed (a Read would not block when buffered > 0 or closed).
+func (r *Reliable) VerifBuffered() (int, bool) {
+	r.recvWindow.m.Lock()
+	defer r.recvWindow.m.Unlock()
+	return r.recvWindow.buffer.Len(), r.recvWindow.closed.Load()
+}
+
+// VerifState returns the tube state number.
+func (r *Reliable) VerifState() int {
+	r.l.Lock()
+	defer r.l.Unlock()
+	return int(r.tubeState)
+}
+
+// VerifQueuedMsgs is the number of messages waiting in an unreliable tube.
+func (u *Unreliable) VerifQueuedMsgs() int { return len(u.recv.C) }
+
+// VerifState returns the tube state number.
+func (u *Unreliable) VerifState() int { return int(u.state.Load().(state)) }
